@@ -82,6 +82,43 @@ func runC03(c *core.Ctx, r *core.Reporter) {
 	c03sym(c, r, m)
 	c03char(c, r, m)
 	c03num(c, r, m)
+	c03local(c, r)
+}
+
+// c03local: a printing method that is handed the printer settings must use
+// them: no Readably(b, p) method reads the package-level default printer.
+func c03local(c *core.Ctx, r *core.Reporter) {
+	const rule = "C03.local"
+	r.Rule(rule, "every method Readably(b, p *Printer) takes the printer control settings from p only: it never loads the package-level default printer (a prefix from the local base with digits from the global base is unreadable)", 10)
+	for _, fn := range c.ModuleFuncs() {
+		if fn.Name() != "Readably" || fn.Signature.Recv() == nil || fn.Parent() != nil {
+			continue
+		}
+		hasP := false
+		for _, p := range fn.Params {
+			if core.IsNamed(p.Type(), core.SlipPath, "Printer") {
+				hasP = true
+			}
+		}
+		if !hasP {
+			continue
+		}
+		var bad []string
+		pos := fn.Pos()
+		for _, b := range fn.Blocks {
+			for _, in := range b.Instrs {
+				var rands [8]*ssa.Value
+				for _, op := range in.Operands(rands[:0]) {
+					if g, ok := (*op).(*ssa.Global); ok && core.IsNamed(g.Type(), core.SlipPath, "Printer") {
+						// passing &printer on to another Readably is delegation with explicit settings only when p is absent; here p exists
+						bad = append(bad, g.Name())
+						pos = in.Pos()
+					}
+				}
+			}
+		}
+		r.Decide(len(bad) == 0, rule, core.SSAName(fn), c.Pos(pos), fmt.Sprintf("reads of package-level printers inside the method: %v", bad))
+	}
 }
 
 func c03sym(c *core.Ctx, r *core.Reporter, m *readerModel) {
